@@ -247,7 +247,7 @@ def drive_atheris(ctx: Ctx) -> None:
         ctx.extra["atheris"] = f"unavailable: {type(e).__name__}: {e}"
         ctx.classes["atheris_unavailable"] += 1
         return
-    runs = ctx.pick(12_000, 300_000)
+    runs = int(os.environ.get("CPV_C18_RUNS") or ctx.pick(12_000, 300_000))   # env override: long campaigns
     mode = ["structured", "raw"][ctx.shard % 2]
     seeded = (ctx.shard // 2) % 2 == 0
     work = tempfile.mkdtemp(prefix=f"c18_{ctx.shard}_", dir=_work_dir())
@@ -263,7 +263,8 @@ def drive_atheris(ctx: Ctx) -> None:
         cmd = [sys.executable, script, corpus, f"-runs={runs}", f"-seed={ctx.sub_seed('atheris') % (2 ** 31 - 1) + 1}",
                f"-artifact_prefix={arte}", "-max_len=2048", "-timeout=20", "-rss_limit_mb=4096",
                "-print_final_stats=0", "-verbosity=0"]
-        p = subprocess.run(cmd, env=env, capture_output=True, text=True, timeout=ctx.pick(600, 7200))
+        p = subprocess.run(cmd, env=env, capture_output=True, text=True,
+                           timeout=int(os.environ.get("CPV_C18_TIMEOUT") or ctx.pick(600, 7200)))
         st_ = {}
         if os.path.exists(stats):
             with open(stats) as f:
